@@ -309,6 +309,8 @@ Judge(e) ==
       [] e.op = "emitexc"           -> J_emitexc(e)
       [] e.op = "coilroundtrip"     -> J_coilroundtrip(e)
       [] e.op = "coildevice"        -> J_coildevice(e)
+      \* the driver's watchdog: the case was still running (no event for a minute, or the heap beyond 6 GiB)
+      [] e.op = "runaway" -> "library-call-does-not-return"
       [] OTHER                      -> "unknown-event"
 
 Init == l = 1
